@@ -1,7 +1,7 @@
 """C08 — stored records never dangle (inductive step over the write corpus) (DESIGN 5/C08)."""
 import sys
 
-from engine import runner
+from engine import runner, symex
 from checks import corpus, asserts
 
 
@@ -58,18 +58,26 @@ def schedule_sig(reqs, trace):
 
 
 def conc_family(name, mk_reqs, world=None, max_preemptions=None,
-                sig_schedule=False):
+                sig_schedule=False, catalogue=False):
     """removal of an entity racing a request that starts using it: after
     every schedule nothing dangles and the hierarchy is a forest"""
     from engine import app
     from engine.runner import Family, finish
     from checks import conc, c18
 
+    catalogue = catalogue or 'delete_class' in name or \
+        'delete_trait' in name
+
     def path(ctx):
         app.setup()
         reqs = mk_reqs()
+        # catalogue: the scenario writes the trait / class catalogue, so
+        # transactions touching only those tables are scheduling points too
+        from engine import inject
         pre, results, final, sched, writes = conc.run_concurrent(
-            ctx, world or conc_world, reqs, max_preemptions=max_preemptions)
+            ctx, world or conc_world, reqs, max_preemptions=max_preemptions,
+            contended=inject.CONTENDED + ('traits', 'resource_classes')
+            if catalogue else None)
         for i, r in enumerate(results):
             if r.status >= 500:
                 runner.violation(ctx, 'no-5xx', '%s: %d' % (reqs[i].name,
@@ -186,10 +194,74 @@ def _reqs():
     return locals()
 
 
+def refusal_family(kind):
+    """The refusal clauses for catalogue entries: a trait associated with a
+    provider / a class that has inventory cannot be deleted (409, nothing
+    changes), an unused custom one can (204, gone), a standard one never
+    (400).  The association / inventory may sit on a root, on a child or on
+    an unrelated root (symbolic presence bits)."""
+    from engine import app
+    from engine.runner import Family, finish, obligation
+    from engine.scenario import World, rel_diff, CORE_TABLES
+    from engine.symdb import Or, Not, zbool
+
+    def path(ctx):
+        app.setup()
+        w = World(ctx)
+        w.rc('VCPU')
+        w.rc('CUSTOM_FOO', 10000)
+        w.rc('CUSTOM_BAR', 10001)
+        for t in ('CUSTOM_T1', 'CUSTOM_T2', 'HW_CPU_X86_AVX'):
+            w.trait(t)
+        w.provider(1)
+        w.provider(2, parent=1)
+        w.provider(3)
+        bits = []
+        for p in (1, 2, 3):
+            if kind == 'trait':
+                bits.append(w.has_trait(p, 'CUSTOM_T1'))
+                w.has_trait(p, 'CUSTOM_T2')
+            else:
+                bits.append(w.inventory(p, 'CUSTOM_FOO')['present'])
+                w.inventory(p, 'CUSTOM_BAR')
+        with w:
+            pre = w.dump()
+            name = (('CUSTOM_T1', 'HW_CPU_X86_AVX') if kind == 'trait' else
+                    ('CUSTOM_FOO', 'VCPU'))[symex.choose(2)]
+            r = app.call('DELETE', ('/traits/' if kind == 'trait' else
+                                    '/resource_classes/') + name,
+                         version='1.36')
+            post = w.dump()
+            in_use = Or(*bits)
+            if not name.startswith('CUSTOM_'):
+                want = {400: True}
+            else:
+                want = {409: in_use, 204: Not(in_use)}
+            if r.status not in want:
+                runner.violation(ctx, 'refusal-status', 'DELETE %s %s: %d' % (
+                    kind, name, r.status), sig='%s:%d' % (name, r.status))
+                return finish(ctx, str(r.status))
+            obligation(ctx, 'refusal-status', zbool(Not(want[r.status])),
+                       'DELETE %s %s answered %d although it is %s' % (
+                           kind, name, r.status,
+                           'unused' if r.status == 409 else 'in use'),
+                       sig='%s:%d' % (name, r.status))
+            if r.status >= 400:
+                obligation(ctx, 'refusal-changes-nothing', zbool(rel_diff(
+                    pre, post, CORE_TABLES + ('traits', 'resource_classes'))),
+                    'refused DELETE changed stored state')
+            asserts.no_dangling(ctx, None, None, pre, post, r)
+            return finish(ctx, str(r.status))
+    return Family('refusal/delete_' + kind, path, bounds=dict(
+        providers='root, its child, another root; the %s optional on each'
+        % ('association' if kind == 'trait' else 'inventory')))
+
+
 def families(tier):
     R = _reqs()
     fams = [corpus.make_family(s, [asserts.no_dangling, asserts.no_5xx])
             for s in corpus.shapes(tier)]
+    fams += [refusal_family('trait'), refusal_family('class')]
     fams += [
         conc_family('delete_provider+put_alloc', lambda: [
             R['delete_provider'](1), R['put_alloc'](1)]),
